@@ -455,9 +455,18 @@ type Input struct {
 	Raw   *RawIn   `json:"raw,omitempty"`
 	Sess  []Action `json:"sess,omitempty"`
 	Large bool     `json:"large,omitempty"`
+	// Fam: the session belongs to the family of textually confusable address pairs (confusable.go)
+	Fam string `json:"fam,omitempty"`
+	// Key: Laddr.String()+Raddr.String() of this pair, as Go prints it (correspondence of the text model)
+	Key *KeyIn `json:"key,omitempty"`
 	// Stress > 0: that many unsynchronised sessions (4 connections each); every stream is a case
 	Stress int `json:"stress,omitempty"`
 	Stream int `json:"stream,omitempty"` // which stream of the stress run this case is (information only)
+}
+
+type KeyIn struct {
+	L Addr `json:"l"`
+	R Addr `json:"r"`
 }
 
 func main() {
@@ -537,6 +546,23 @@ func main() {
 		}
 		for i := 0; i < nLarge; i++ {
 			inputs = append(inputs, Input{Sess: genSession(r, true), Large: true})
+		}
+		// sets of connections whose address pairs are textually confusable
+		cs, cpairs := confusableSessions(r, o.Tier, dist)
+		for _, c := range cs {
+			inputs = append(inputs, Input{Sess: c.acts, Fam: c.fam})
+		}
+		seenKey := map[string]bool{}
+		for _, p := range cpairs {
+			if len(p.l.IP) != 4 || len(p.r.IP) != 4 {
+				continue
+			}
+			l, rr := p.text()
+			if seenKey[l+" "+rr] {
+				continue
+			}
+			seenKey[l+" "+rr] = true
+			inputs = append(inputs, Input{Key: &KeyIn{L: *p.l, R: *p.r}})
 		}
 		nStress := 150
 		if o.Tier != "quick" {
@@ -630,6 +656,11 @@ func main() {
 				c.Coq = fmt.Sprintf("CC (mkCCase %s %s %s %s)", idc, m.Coq(), coqB(enc), dec.Coq())
 			}
 			cases = append(cases, c)
+		case in.Key != nil:
+			text := in.Key.L.Net().String() + in.Key.R.Net().String()
+			dist["addrtext"]++
+			cases = append(cases, hx.Case{ID: id, Kind: "addrtext", Input: in, Obs: map[string]interface{}{"text": text},
+				Coq: fmt.Sprintf("CK (mkKCase %s %s %s %s)", idc, in.Key.L.Coq(), in.Key.R.Coq(), coqB([]byte(text)))})
 		case in.Raw != nil:
 			dec, crash := decodeReal(in.Raw.Ty, in.Raw.Data)
 			dist[fmt.Sprintf("raw:type%d", in.Raw.Ty)]++
@@ -655,6 +686,10 @@ func main() {
 			kind := "session"
 			if in.Large {
 				kind = "session-large"
+			}
+			if in.Fam != "" {
+				kind = "session-confusable"
+				dist["confusable:sessions-"+in.Fam]++
 			}
 			var as, rs, fs []string
 			nmsg, nconn, nread, npark := 0, 0, 0, 0
